@@ -133,6 +133,7 @@ def fmin(a, b):
 
 
 CTYPE = (r'(?:double\[:(?:,\s*:)*\]|long\[:(?:,\s*:)*\]|int\[:(?:,\s*:)*\]|np\.ndarray\[[^\]]*\]'
+         r'|unsigned\s+long\s+long|unsigned\s+long|unsigned\s+int|unsigned|size_t'
          r'|double|float|int|long|bint|object|Py_ssize_t)')
 PARAM = re.compile(r'^\s*(?P<t>' + CTYPE + r')?\s*(?P<n>\w+)\s*(?:=\s*(?P<d>.+))?$')
 FHEAD = re.compile(r'^(?P<ind>\s*)(?:def|cpdef|cdef(?:\s+inline)?)(?:\s+' + CTYPE + r')?\s+(?P<name>\w+)\s*\(')
@@ -166,6 +167,8 @@ def _coerce_stmt(t, n):
         return "%s = _mv_arg(%s, %d, np.int64)" % (n, n, t.count(':'))
     if t == 'float':
         return "%s = _f32(%s)" % (n, n)
+    if _unsigned(t):
+        return "%s = %s(%s)" % (n, _unsigned(t), n)
     if t == 'double':
         return "%s = float(%s)" % (n, n)
     if t in ('int', 'long', 'bint', 'Py_ssize_t'):
@@ -176,6 +179,27 @@ def _coerce_stmt(t, n):
 def _f32(x):
     """C `float`: round to IEEE binary32"""
     return float(np.float32(x))
+
+
+def _unsigned(t):
+    """name of the wrap function for an unsigned C integer type, else None"""
+    t = ' '.join(t.split())
+    if t in ('size_t', 'unsigned long', 'unsigned long long'):
+        return '_u64'
+    if t in ('unsigned', 'unsigned int'):
+        return '_u32'
+    return None
+
+
+def _u64(x):
+    """conversion to a 64-bit unsigned C integer: modulo 2**64 (-1 becomes 18446744073709551615)"""
+    STATS["unsigned_conversions"] = STATS.get("unsigned_conversions", 0) + 1
+    return int(x) % (1 << 64)
+
+
+def _u32(x):
+    STATS["unsigned_conversions"] = STATS.get("unsigned_conversions", 0) + 1
+    return int(x) % (1 << 32)
 
 
 F32_NAMES = {}      # function-local names declared `cdef float`, per translated source (keyed by id of the line list)
@@ -220,6 +244,9 @@ def translate(src, f32=None):
                 c = _coerce_stmt(pm.group('t'), pm.group('n'))
                 if c:
                     coer.append(c)
+                pt = pm.group('t')
+                if pt and (pt == 'float' or _unsigned(pt)):
+                    f32.setdefault(m.group('name'), {})[pm.group('n')] = '_f32' if pt == 'float' else _unsigned(pt)
             ind = m.group('ind')
             cur_fn = m.group('name')
             out.append("%sdef %s(%s):" % (ind, m.group('name'), ', '.join(params)))
@@ -247,18 +274,21 @@ def translate(src, f32=None):
                 elif t in ('int', 'long', 'Py_ssize_t'):
                     out.append("%s%s = int(%s)" % (ind, n, e))
                 elif t == 'float':
-                    f32.setdefault(cur_fn, set()).add(n)
+                    f32.setdefault(cur_fn, {})[n] = '_f32'
                     out.append("%s%s = _f32(%s)" % (ind, n, e))
+                elif _unsigned(t):
+                    f32.setdefault(cur_fn, {})[n] = _unsigned(t)
+                    out.append("%s%s = %s(%s)" % (ind, n, _unsigned(t), e))
                 elif t == 'double':
                     out.append("%s%s = float(%s)" % (ind, n, e))
                 else:
                     out.append("%s%s = %s" % (ind, n, e))
             else:
-                if t == 'float':
+                if t == 'float' or _unsigned(t):
                     for nm in rest.split(','):
                         nm = nm.strip()
                         if re.match(r'^\w+$', nm):
-                            f32.setdefault(cur_fn, set()).add(nm)
+                            f32.setdefault(cur_fn, {})[nm] = '_f32' if t == 'float' else _unsigned(t)
                 out.append(ind + 'pass')
             i += 1
             continue
@@ -272,25 +302,27 @@ def translate(src, f32=None):
 
 
 class _F32Tx(ast.NodeTransformer):
-    """every assignment to a name declared `cdef float` in the enclosing function is rounded to binary32"""
+    """every assignment to a name declared `cdef float` (or with an unsigned integer type) in the enclosing function is
+    converted the way C converts it: rounded to binary32, respectively reduced modulo 2**64 / 2**32"""
     def __init__(self, per_function):
         self.per_function = per_function
-        self.names = per_function.get("<module>", set())
+        self.names = dict(per_function.get("<module>", {}))
 
     def visit_FunctionDef(self, node):
         outer = self.names
-        self.names = self.per_function.get(node.name, set()) | self.per_function.get("<module>", set())
+        self.names = dict(self.per_function.get("<module>", {}))
+        self.names.update(self.per_function.get(node.name, {}))
         self.generic_visit(node)
         self.names = outer
         return node
 
-    def _wrap(self, v):
-        return ast.Call(func=ast.Name(id='_f32', ctx=ast.Load()), args=[v], keywords=[])
+    def _wrap(self, v, name):
+        return ast.Call(func=ast.Name(id=self.names[name], ctx=ast.Load()), args=[v], keywords=[])
 
     def visit_Assign(self, node):
         self.generic_visit(node)
         if len(node.targets) == 1 and isinstance(node.targets[0], ast.Name) and node.targets[0].id in self.names:
-            node.value = self._wrap(node.value)
+            node.value = self._wrap(node.value, node.targets[0].id)
         return node
 
     def visit_AugAssign(self, node):
@@ -298,7 +330,8 @@ class _F32Tx(ast.NodeTransformer):
         if isinstance(node.target, ast.Name) and node.target.id in self.names:
             load = ast.Name(id=node.target.id, ctx=ast.Load())
             return ast.copy_location(ast.Assign(targets=[node.target],
-                                                value=self._wrap(ast.BinOp(left=load, op=node.op, right=node.value))), node)
+                                                value=self._wrap(ast.BinOp(left=load, op=node.op, right=node.value),
+                                                                 node.target.id)), node)
         return node
 
 
@@ -338,7 +371,7 @@ def load(path, modname, extra=None):
     mod = types.ModuleType(modname)
     mod.__file__ = path + " [emulated]"
     ns = mod.__dict__
-    ns.update(np=np, MV=MV, _mv_arg=_mv_arg, _cdiv=_cdiv, _f32=_f32, fabs=fabs, fmax=fmax, fmin=fmin,
+    ns.update(np=np, MV=MV, _mv_arg=_mv_arg, _cdiv=_cdiv, _f32=_f32, _u64=_u64, _u32=_u32, fabs=fabs, fmax=fmax, fmin=fmin,
               exp=math.exp, fmod=math.fmod, sqrt=math.sqrt)
     if extra:
         ns.update(extra)
